@@ -244,6 +244,7 @@ type lintCase struct {
 	Workflow string `json:"workflow,omitempty"`
 	Line     int    `json:"line"`
 	ColBase  int    `json:"col_base"`
+	Occs     []occ  `json:"occurrences,omitempty"` // deep (seeded) cases only
 	src      string
 }
 
@@ -479,6 +480,19 @@ func replay(path string, sp *spec) int {
 		}
 		res := runCase(&c)
 		hx.Must(res.err)
+		if len(c.Occs) > 0 {
+			fs := judgeDeep(sp, &c, res)
+			fmt.Printf("position %s (canonical path %s, table key %q), deep expression %q at line %d\noccurrences=%v\ndiagnostics=%v\n", c.key(), c.Canon, sp.keyFor(c.Canon), c.Expr, c.Line, c.Occs, res.diags)
+			for _, x := range fs {
+				fmt.Println("  ", x.What)
+			}
+			if len(fs) > 0 {
+				fmt.Println("REPLAY: property violated")
+				return 1
+			}
+			fmt.Println("REPLAY: property holds on this input")
+			return 0
+		}
 		demanded, key := judge(sp, &c, res)
 		fmt.Printf("position %s (canonical path %s, table key %q), %s %q planted as %q at line %d\n", c.key(), c.Canon, key, map[bool]string{false: "context", true: "function"}[c.IsFn], c.Name, c.Expr, c.Line)
 		fmt.Printf("demanded reported=%v observed reported=%v diagnostics=%v spurious=%v\n", demanded, res.reported, res.diags, res.spurious)
@@ -499,8 +513,8 @@ func main() {
 	repo := flag.String("repo", "/repo", "repository whose sources are parsed for -gen")
 	doTranscribe := flag.Bool("transcribe", false, "print coq/Wf/SpecAvailability.v")
 	replayFile := flag.String("replay", "", "replay file")
-	_ = flag.Uint64("seed", 1, "unused: the enumeration is exhaustive")
-	_ = flag.Int("n", 0, "unused: the enumeration is exhaustive")
+	seed := flag.Uint64("seed", 1, "PRNG seed of the deep expressions (the enumeration itself is exhaustive)")
+	nDeep := flag.Int("n", -1, "number of seeded deep expressions (default: 400 quick, 8000 thorough)")
 	tier := flag.String("tier", "quick", "quick: 3 embeddings; thorough: 11 embeddings (both enumerate all positions x names)")
 	flag.Parse()
 
@@ -524,7 +538,7 @@ func main() {
 
 	hx.Must(os.MkdirAll(*out, 0o755))
 	sum := hx.NewSummary("C12")
-	sum.Rule = "EXHAUSTIVE: every scalar value position of the every-key workflows x every context and special function of GitHub's table x embeddings (quick: bare, argument of format(), upper case; thorough: + mixed case, operand of !, of && and ||, of ==, format() at depth 2, index position, receiver of a dereference), each planted alone into the otherwise clean workflow and linted through NewLinter+Lint; plus WorkflowKeyAvailability on every (table key, name) pair and on unlisted keys; non-trivial = a not-allowed / undefined-variable diagnostic is reported at the planted position; distinct = distinct (position, form, name, embedding)"
+	sum.Rule = "EXHAUSTIVE: every scalar value position of the every-key workflows x every context and special function of GitHub's table x embeddings (quick: bare, argument of format(), upper case; thorough: + mixed case, operand of !, of && and ||, of ==, format() at depth 2, index position, receiver of a dereference), each planted alone into the otherwise clean workflow and linted through NewLinter+Lint; plus seeded deep expressions (several names, depth <= 4, every operator, random letter case; each occurrence judged by its column); plus WorkflowKeyAvailability on every (table key, name) pair and on unlisted keys; non-trivial = a not-allowed / undefined-variable diagnostic is reported at the planted position; distinct = distinct (position, form, name, embedding)"
 
 	// 0. the specification file is the transcription of the committed table
 	sum.Extra["spec_rows"] = len(sp.rows)
@@ -558,12 +572,14 @@ func main() {
 		nEmb = len(embNames)
 	}
 	unrouted := []string{}
+	routed := []int{}
 	for pi := range positions {
 		if positions[pi].MaybeUnrouted && !isRouted(pi) {
 			unrouted = append(unrouted, positions[pi].ID)
 			sum.Dist["skipped:position-not-routed-to-the-expression-checker(C03)"] += (len(sp.contexts) + len(sp.funcs)) * nEmb
 			continue
 		}
+		routed = append(routed, pi)
 		for _, c := range sp.contexts {
 			for emb := 0; emb < nEmb; emb++ {
 				cases = append(cases, makeCase(pi, c, false, emb))
@@ -574,6 +590,19 @@ func main() {
 				cases = append(cases, makeCase(pi, f, true, emb))
 			}
 		}
+	}
+	nExhaustive := len(cases)
+	if *nDeep < 0 {
+		*nDeep = 400
+		if *tier == "thorough" {
+			*nDeep = 8000
+		}
+	}
+	rng := hx.NewRng(*seed)
+	for i := 0; i < *nDeep; i++ {
+		c, err := makeDeepCase(rng, sp, routed)
+		hx.Must(err)
+		cases = append(cases, c)
 	}
 	results := make([]caseResult, len(cases))
 	var wg sync.WaitGroup
@@ -604,6 +633,31 @@ func main() {
 		c, res := &cases[i], results[i]
 		hx.Must(res.err)
 		sum.Evaluations++
+		if i >= nExhaustive {
+			sum.Dist["embedding:seeded-deep-expression"]++
+			sum.Dist["deep:occurrences"] += len(c.Occs)
+			if res.sigErr {
+				sum.Dist["outside-model-domain:signature-error"]++
+			}
+			fs := judgeDeep(sp, c, res)
+			for _, f := range fs {
+				sum.OracleFails = append(sum.OracleFails, f)
+			}
+			if len(res.diags) > 0 {
+				nontrivial++
+			}
+			term, err := modelTerm(c, res)
+			hx.Must(err)
+			fmt.Fprintln(cf, term)
+			small := *c
+			small.Workflow = ""
+			sb, _ := json.Marshal(small)
+			fmt.Fprintln(sf, string(sb))
+			if i == nExhaustive {
+				sum.Samples = append(sum.Samples, map[string]interface{}{"position": c.key(), "planted": c.Expr, "occurrences": c.Occs, "observed": res.diags})
+			}
+			continue
+		}
 		sum.Dist["embedding:"+embNames[c.Emb]]++
 		if res.sigErr {
 			sum.Dist["outside-model-domain:signature-error"]++
@@ -643,6 +697,8 @@ func main() {
 	sum.Extra["positions"] = len(positions) - len(unrouted)
 	sum.Extra["unrouted_positions_skipped"] = unrouted
 	sum.Extra["lints"] = len(cases)
+	sum.Extra["lints_exhaustive"] = nExhaustive
+	sum.Extra["lints_seeded_deep"] = len(cases) - nExhaustive
 
 	// 3. the exported table function itself
 	tableOracle(sp, sum)
